@@ -7,6 +7,7 @@ package netpoll
 
 import (
 	"context"
+	"encoding/json"
 	"fmt"
 	"io"
 	"net"
@@ -771,6 +772,136 @@ func runShutdown(s shutScn) (sig, msg string) {
 	return "", ""
 }
 
+// ---- descriptor exhaustion: accept fails with EMFILE for a generated stretch
+
+type emfileListener struct {
+	Listener
+	on *int32
+	n  *int32
+}
+
+func (l *emfileListener) Accept() (net.Conn, error) {
+	if atomic.LoadInt32(l.on) != 0 {
+		atomic.AddInt32(l.n, 1)
+		return nil, syscall.EMFILE
+	}
+	return l.Listener.Accept()
+}
+
+type emfileScn struct {
+	Network   string `json:"network"`
+	StretchMS int    `json:"emfile_ms"`
+	Before    int    `json:"before"` // clients served before the stretch
+	During    int    `json:"during"` // clients connecting while accept fails (they wait in the kernel's accept queue)
+}
+
+func runEmfile(s emfileScn) (sig, msg string) {
+	e3Init()
+	nl, addr, err := e3Listen(s.Network)
+	if err != nil {
+		return "", ""
+	}
+	base, err := ConvertListener(nl)
+	if err != nil {
+		return "", ""
+	}
+	var on, fails int32
+	ln := &emfileListener{Listener: base, on: &on, n: &fails}
+	evl, _ := NewEventLoop(func(ctx context.Context, conn Connection) error {
+		n := conn.Reader().Len()
+		p, _ := conn.Reader().Next(n)
+		w, err := conn.Writer().Malloc(n)
+		if err == nil {
+			copy(w, p)
+			conn.Writer().Flush()
+		}
+		conn.Reader().Release()
+		return nil
+	})
+	done := make(chan error, 1)
+	go func() { done <- evl.Serve(ln) }()
+	if s.Network == "unix" {
+		defer os.Remove(addr)
+	}
+	nw := "tcp"
+	if s.Network == "unix" {
+		nw = "unix"
+	}
+	echo := func(c net.Conn, tag string) string {
+		c.SetDeadline(time.Now().Add(8 * time.Second))
+		if _, err := c.Write([]byte(tag)); err != nil {
+			return err.Error()
+		}
+		buf := make([]byte, len(tag))
+		if _, err := io.ReadFull(c, buf); err != nil || string(buf) != tag {
+			return fmt.Sprintf("echo of %q failed: %q %v", tag, buf, err)
+		}
+		return ""
+	}
+	var all []net.Conn
+	defer func() {
+		for _, c := range all {
+			c.Close()
+		}
+	}()
+	for i := 0; i < s.Before; i++ {
+		c, err := net.DialTimeout(nw, addr, 5*time.Second)
+		if err != nil {
+			return "dial", err.Error()
+		}
+		all = append(all, c)
+		if e := echo(c, fmt.Sprintf("before%d", i)); e != "" {
+			return "before-stretch", e
+		}
+	}
+	atomic.StoreInt32(&on, 1)
+	var during []net.Conn
+	for i := 0; i < s.During; i++ {
+		c, err := net.DialTimeout(nw, addr, 5*time.Second)
+		if err != nil {
+			return "dial", err.Error()
+		}
+		all = append(all, c)
+		during = append(during, c)
+	}
+	time.Sleep(time.Duration(s.StretchMS) * time.Millisecond)
+	atomic.StoreInt32(&on, 0)
+	// accepting resumes: the queued clients and a new one are served (the back-off is at most 1 s per retry)
+	for i, c := range during {
+		if e := echo(c, fmt.Sprintf("during%d", i)); e != "" {
+			return "not-resumed", fmt.Sprintf("client %d that connected while accept failed with EMFILE (%d ms, %d failed accepts) was not served afterwards: %s", i, s.StretchMS, atomic.LoadInt32(&fails), e)
+		}
+	}
+	c, err := net.DialTimeout(nw, addr, 5*time.Second)
+	if err != nil {
+		return "not-resumed", "dial after the stretch: " + err.Error()
+	}
+	all = append(all, c)
+	if e := echo(c, "after"); e != "" {
+		return "not-resumed", fmt.Sprintf("a client connecting after the EMFILE stretch (%d ms) was not served: %s", s.StretchMS, e)
+	}
+	for _, c := range all {
+		c.Close()
+	}
+	all = nil
+	ctx, cancel := context.WithTimeout(context.Background(), 5*time.Second)
+	defer cancel()
+	if err := evl.Shutdown(ctx); err != nil {
+		return "shutdown-after-emfile", fmt.Sprintf("Shutdown after the stretch returned %v", err)
+	}
+	select {
+	case <-done:
+	case <-time.After(5 * time.Second):
+		return "serve-not-returned", "Serve did not return after Shutdown"
+	}
+	return "", ""
+}
+
+func vJournal(v interface{}) {
+	b, _ := json.Marshal(v)
+	os.WriteFile(filepath.Join(vOutDir, "current_case.json"), b, 0o644)
+}
+
 func TestVerifC13Live(t *testing.T) {
 	st := newStats("C13")
 	defer st.write()
@@ -780,6 +911,17 @@ func TestVerifC13Live(t *testing.T) {
 		}
 		if err := vLoadReplay(&rec); err != nil {
 			t.Fatalf("replay: %v", err)
+		}
+		var erec struct {
+			Scenario emfileScn `json:"scenario"`
+		}
+		if vLoadReplay(&erec) == nil && erec.Scenario.StretchMS > 0 {
+			st.eval()
+			if sig, msg := runEmfile(erec.Scenario); sig != "" {
+				vReport(vViolation{Property: "C13", Slot: "replay:C13", Signature: sig, Message: msg, Replay: map[string]interface{}{"scenario": erec.Scenario}})
+				t.Fatalf("C13 violated [%s]: %s", sig, msg)
+			}
+			return
 		}
 		st.eval()
 		for i := 0; i < 10; i++ {
@@ -791,6 +933,23 @@ func TestVerifC13Live(t *testing.T) {
 		return
 	}
 	rapid.Check(t, func(t *rapid.T) {
+		if rapid.IntRange(0, 3).Draw(t, "emfile") == 0 {
+			es := emfileScn{Network: rapid.SampledFrom([]string{"tcp4", "unix"}).Draw(t, "network"), Before: rapid.IntRange(0, 2).Draw(t, "before"), During: rapid.IntRange(1, 3).Draw(t, "during")}
+			es.StretchMS = rapid.SampledFrom([]int{20, 150, 700, 2300}).Draw(t, "stretch")
+			vJournal(map[string]interface{}{"scenario": es})
+			sig, msg := runEmfile(es)
+			st.eval()
+			if sig != "" {
+				vReport(vViolation{Property: "C13", Slot: "rapid:C13live", Signature: sig, Message: msg, Replay: map[string]interface{}{"scenario": es, "deadline_ms": 0}})
+				t.Fatalf("C13 violated [%s]: %s", sig, msg)
+			}
+			st.class("emfile-stretch")
+			st.class("nontrivial")
+			if st.nontrivial(fmt.Sprintf("%+v", es)) {
+				st.sample(es)
+			}
+			return
+		}
 		s := shutScn{Network: rapid.SampledFrom([]string{"tcp4", "unix"}).Draw(t, "network")}
 		s.Idle = rapid.IntRange(0, 4).Draw(t, "idle")
 		s.Fresh = rapid.IntRange(0, 2).Draw(t, "fresh")
@@ -1186,7 +1345,7 @@ type fdScn struct {
 	Steps []string `json:"steps"`
 }
 
-var fdStepKinds = []string{"dial-tcp", "dial-unix", "dial-refused", "dial-timeout", "server-tcp", "server-unix", "fdconn", "detach", "manager", "listener-create", "concurrent-close"}
+var fdStepKinds = []string{"dial-regfail", "dial-tcp", "dial-unix", "dial-refused", "dial-timeout", "server-tcp", "server-unix", "fdconn", "detach", "manager", "listener-create", "concurrent-close"}
 
 func censusKinds() map[string]int {
 	m := map[string]int{}
@@ -1248,6 +1407,41 @@ func runFDStep(kind string) string {
 		if c, err := DialConnection("tcp", addr, 200*time.Millisecond); err == nil {
 			c.Close()
 		}
+	case "dial-regfail":
+		// a dial whose connect succeeds but whose registration with the poller fails: the steps of DialTCP,
+		// with the descriptor added to every poller's epoll set beforehand so that EPOLL_CTL_ADD returns EEXIST
+		ln, addr, err := e3Listen("tcp4")
+		if err != nil {
+			return ""
+		}
+		go func() {
+			for {
+				c, err := ln.Accept()
+				if err != nil {
+					return
+				}
+				go func() { io.Copy(io.Discard, c); c.Close() }()
+			}
+		}()
+		raddr, err := ResolveTCPAddr("tcp", addr)
+		if err == nil {
+			ctx, cancel := context.WithTimeout(context.Background(), time.Second)
+			nfd, err := internetSocket(ctx, "tcp", nil, raddr, syscall.SOCK_STREAM, 0, "dial")
+			cancel()
+			if err == nil {
+				for _, p := range pollmanager.polls {
+					if dp, ok := p.(*defaultPoll); ok {
+						var evt epollevent
+						evt.events = syscall.EPOLLIN
+						EpollCtl(dp.fd, syscall.EPOLL_CTL_ADD, nfd.fd, &evt)
+					}
+				}
+				if c, err := newTCPConnection(nfd); err == nil {
+					c.Close()
+				}
+			}
+		}
+		ln.Close()
 	case "dial-timeout":
 		addr, cl, ok := blackhole()
 		if !ok {
